@@ -12,14 +12,18 @@ from fibertree import Fiber, Payload, Tensor  # noqa: E402
 from fibertree.model.format import Format  # noqa: E402
 from . import proj  # noqa: E402
 
-IDS = ["K", "M", "N"]
+IDS = ["K", "M", "N", "P"]
 ROOT = os.path.dirname(os.path.dirname(os.path.abspath(__file__)))
 
 
 def pj(obj, oids):
     if isinstance(obj, Tensor):
-        return proj.proj_tensor(obj, oids, mode="seqflat")
-    return {"rank0": 0, "root": proj.proj_fiber(obj, None, oids, mode="seqflat"), "ranks": []}
+        r = proj.proj_tensor(obj, oids, mode="seqflat")
+        # the leaf default as every reader of an unwritten point sees it
+        with contextlib.suppress(Exception):
+            r["dflt"] = repr(Payload.get(obj.getDefault()))
+        return r
+    return {"rank0": 0, "root": proj.proj_fiber(obj, None, oids, mode="seqflat"), "ranks": [], "dflt": repr(Payload.get(obj.getDefault())) if not isinstance(Payload.get(obj.getDefault()), type) else "Fiber"}
 
 
 def idsets(obj, oids, keep):
@@ -62,6 +66,16 @@ def mutate(obj):
     if b is not None:
         b <<= 99
         b += 1
+    # a caller that takes the default and accumulates into it (the default is handed out by value)
+    with contextlib.suppress(Exception):
+        dv = obj.getDefault()
+        if isinstance(dv, Payload):
+            dv += 1
+    for f in (root, leaf_fiber(root)):
+        with contextlib.suppress(Exception):
+            dv = f.getDefault()
+            if isinstance(dv, Payload):
+                dv += 1
     lf = leaf_fiber(root)
     if lf.coords and isinstance(lf.coords[-1], int) and not isinstance(lf.payloads[-1], Fiber):
         lf.append(lf.coords[-1] + 50, 5)
@@ -97,6 +111,10 @@ def value_op(op, t, t2, case):
         return root // 2
     if op == "swizzle":
         return t.swizzleRanks(list(reversed(t.getRankIds())))
+    if op == "swizzlePartial":
+        ids = list(t.getRankIds())
+        k = case.get("d", 0)
+        return t.swizzleRanks(ids[:k] + [ids[k + 1], ids[k]] + ids[k + 2:])      # the trailing (or leading) ranks stay in place
     if op == "swap":
         return t.swapRanks(depth=d)
     if op == "flatten":
@@ -191,13 +209,26 @@ def observe(op, t, t2):
         _ = fm2.getTensor(), fm2.getSubTree()
     elif op.startswith("render"):
         from fibertree import TreeImage, UncompressedImage, TensorImage
-        cls = {"renderTree": TreeImage, "renderUncompressed": UncompressedImage, "renderTensor": TensorImage}[op]
-        if op == "renderTensor":
-            d1 = digest(cls(t, style="tree+uncompressed"))
-            d2 = digest(cls(t, style="tree+uncompressed"))
+        cls = {"renderTree": TreeImage, "renderUncompressed": UncompressedImage, "renderTensor": TensorImage}[op.replace("HL", "")]
+        hl = {}
+        if op.endswith("HL") and root.coords:
+            # highlights: a whole sub-tensor (a point shorter than the depth) and a full point
+            c0 = root.coords[0]
+            full = [c0]
+            f = root
+            while f.payloads and isinstance(f.payloads[0], Fiber):
+                f = f.payloads[0]
+                if not f.coords:
+                    break
+                full.append(f.coords[0])
+            hl = {"PE": [(c0,)], "PE2": [tuple(full)]}
+        kw = {"highlights": hl} if hl else {}
+        if op.startswith("renderTensor"):
+            d1 = digest(cls(t, style="tree+uncompressed", **kw))
+            d2 = digest(cls(t, style="tree+uncompressed", **kw))
         else:
-            d1 = digest(cls(t))
-            d2 = digest(cls(t))
+            d1 = digest(cls(t, **kw))
+            d2 = digest(cls(t, **kw))
     else:
         raise ValueError(op)
     return d1, d2
@@ -208,8 +239,9 @@ def execute(case):
     out = {"tid": case["tid"], "kind": case["kind"], "op": case["op"], "exc": "ok"}
     try:
         depth = case["depth"]
-        t = proj.build_tensor(case["tree"], IDS[:depth], shape=[6] * depth, name="T")
-        t2 = proj.build_tensor(case.get("tree2", case["tree"]), IDS[:depth], shape=[6] * depth, name="T2")
+        dfl = case.get("fdflt", 0)
+        t = proj.build_tensor(case["tree"], IDS[:depth], shape=[6] * depth, name="T", default=dfl)
+        t2 = proj.build_tensor(case.get("tree2", case["tree"]), IDS[:depth], shape=[6] * depth, name="T2", default=dfl)
         keep = []
         out["pre"] = pj(t, oids)
         if case["kind"] == "observer":
@@ -235,8 +267,8 @@ def execute(case):
         out["after_mut_res"] = {"operand": pj(t, oids)}
         # a fresh result for the second direction (the first one was just mutated)
         oids2 = oids
-        t_b = proj.build_tensor(case["tree"], IDS[:depth], shape=[6] * depth, name="T")
-        t2_b = proj.build_tensor(case.get("tree2", case["tree"]), IDS[:depth], shape=[6] * depth, name="T2")
+        t_b = proj.build_tensor(case["tree"], IDS[:depth], shape=[6] * depth, name="T", default=dfl)
+        t2_b = proj.build_tensor(case.get("tree2", case["tree"]), IDS[:depth], shape=[6] * depth, name="T2", default=dfl)
         r_b = value_op(case["op"], t_b, t2_b, case)
         before = pj(r_b, None)
         mutate(t_b)
